@@ -1,4 +1,5 @@
 import Chartparse.Proofs.DispatchProofs
+import Chartparse.Proofs.ReDisjoint
 /-! Property theorems of C14 (statements only; helper lemmas live in `Proofs/`). -/
 namespace Chartparse.Props.C14
 open Chartparse Chartparse.Dsp
@@ -25,5 +26,61 @@ theorem C14_order_free :
     (hj : ∃ kj, kinds[j]? = some kj ∧ kj line = some d),
     classify kinds line i = some (i + j, d) :=
   @Chartparse.Dsp.classify_unique
+
+open Chartparse.Rx in
+/-- obligations: the six recognisers of the sync and instrument sections have the `evRe` normal forms -/
+theorem gen_forms :
+    Gen.noteRe.norm = noteEv.norm ∧ Gen.spRe.norm = spT.norm ∧ Gen.teRe.norm = teEv.norm ∧
+    Gen.bpmRe.norm = bpmT.norm ∧ Gen.tsRe.norm = tsEv.norm ∧ Gen.anchorRe.norm = anchorT.norm := by decide
+
+/-- obligations: kind orders as recorded from a real parse -/
+theorem gen_kind_orders : Gen.instrumentKindOrder = [0, 1, 2] ∧ Gen.syncKindOrder = [3, 4, 5] := by decide
+
+open Chartparse.Rx in
+/-- C14, pairwise disjointness in the instrument section, for ALL strings: at most one of the shipped N / S / E
+    recognisers accepts a given string (their literals start with different letters) -/
+theorem C14_disjoint_instrument (s : Str) (c c' : Caps) :
+    ¬ (Gen.noteRe.matchGroups s = some c ∧ Gen.spRe.matchGroups s = some c') ∧
+    ¬ (Gen.noteRe.matchGroups s = some c ∧ Gen.teRe.matchGroups s = some c') ∧
+    ¬ (Gen.spRe.matchGroups s = some c ∧ Gen.teRe.matchGroups s = some c') := by
+  obtain ⟨hn, hs, ht, _, _, _⟩ := gen_forms
+  refine ⟨?_, ?_, ?_⟩
+  · rintro ⟨h, h'⟩
+    rw [matchGroups_of_norm_eq hn] at h; rw [matchGroups_of_norm_eq hs] at h'
+    exact ev_disjoint 78 83 _ _ _ _ s c c' (by decide) h h'
+  · rintro ⟨h, h'⟩
+    rw [matchGroups_of_norm_eq hn] at h; rw [matchGroups_of_norm_eq ht] at h'
+    exact ev_disjoint 78 69 _ _ _ _ s c c' (by decide) h h'
+  · rintro ⟨h, h'⟩
+    rw [matchGroups_of_norm_eq hs] at h; rw [matchGroups_of_norm_eq ht] at h'
+    exact ev_disjoint 83 69 _ _ _ _ s c c' (by decide) h h'
+
+open Chartparse.Rx in
+/-- C14, pairwise disjointness in the sync section, for ALL strings (B / TS / A) -/
+theorem C14_disjoint_sync (s : Str) (c c' : Caps) :
+    ¬ (Gen.bpmRe.matchGroups s = some c ∧ Gen.tsRe.matchGroups s = some c') ∧
+    ¬ (Gen.bpmRe.matchGroups s = some c ∧ Gen.anchorRe.matchGroups s = some c') ∧
+    ¬ (Gen.tsRe.matchGroups s = some c ∧ Gen.anchorRe.matchGroups s = some c') := by
+  obtain ⟨_, _, _, hb, ht, ha⟩ := gen_forms
+  refine ⟨?_, ?_, ?_⟩
+  · rintro ⟨h, h'⟩
+    rw [matchGroups_of_norm_eq hb] at h; rw [matchGroups_of_norm_eq ht] at h'
+    exact ev_disjoint 66 84 _ _ _ _ s c c' (by decide) h h'
+  · rintro ⟨h, h'⟩
+    rw [matchGroups_of_norm_eq hb] at h; rw [matchGroups_of_norm_eq ha] at h'
+    exact ev_disjoint 66 65 _ _ _ _ s c c' (by decide) h h'
+  · rintro ⟨h, h'⟩
+    rw [matchGroups_of_norm_eq ht] at h; rw [matchGroups_of_norm_eq ha] at h'
+    exact ev_disjoint 84 65 _ _ _ _ s c c' (by decide) h h'
+
+/-- C14 instantiated on the model's dispatcher: conservation for every section body and every kind order -/
+theorem C14_conserve_model (order : List Nat) (lines : List Str) :
+    dataCount (dispatch order lines) + (warnings (dispatch order lines)).length = lines.length :=
+  Chartparse.Dsp.conserve _ lines
+
+/-- non-vacuity: a section with one datum of each instrument kind and two unparsable lines -/
+example : dataCount (dispatch [0, 1, 2] [cp "0 = N 0 0", cp "junk", cp "0 = S 2 5", cp "0 = S 64 5", cp "3 = E solo"]) = 3 ∧
+    (warnings (dispatch [0, 1, 2] [cp "0 = N 0 0", cp "junk", cp "0 = S 2 5", cp "0 = S 64 5", cp "3 = E solo"])).length = 2 := by
+  decide
 
 end Chartparse.Props.C14
